@@ -703,6 +703,10 @@ func (e *Env) call(n *ECall) TVal {
 			return TVal{term: eq(app("s-arr", v.term), nilRef), ty: boolTy()}
 		}
 		return TVal{term: eq(v.term, a.term), ty: boolTy()}
+	case "implements": // implements(iface value, pkg.InterfaceType): non-nil and its dynamic type implements the interface
+		v := e.eval(n.Args[0])
+		t := e.c.goTypeOfExpr(n.Args[1], e.pkg)
+		return TVal{term: and(not(eq(app("i-tid", v.term), "0")), app(e.c.implFun(t), app("i-tid", v.term))), ty: boolTy()}
 	case "typeis": // typeis(iface, pkg.Type)
 		v := e.eval(n.Args[0])
 		t := e.c.goTypeOfExpr(n.Args[1], e.pkg)
